@@ -79,30 +79,87 @@ def r2(ctx):
 def r3(ctx):
     b = ctx.fn(NH)
     ctx.count(3)
-    ent = one(b.calls(r"HashMap::<K, V, S, A>::entry$"), "result.entry(key)")
-    ks = b.slice_op(ent[1]["args"][1])
-    if not (ks.has_call(r"str>::to_lowercase$|to_ascii_lowercase$") and ks.has_call(r"HeaderName::as_str$")):
-        yield VIOL("C11-R3", "normalize_headers/key", "map key is not the lower-cased header name", where=b.span_of_block(ent[0]))
+    LOWER = r"str>::to_lowercase$|to_ascii_lowercase$"
+    VLIST = "std::vec::Vec<std::vec::Vec<u8>>"
+    ents = b.calls(r"HashMap::<K, V, S, A>::entry$")
+    ps = [x for x in b.calls(r"Vec::<T, A>::push$") if VLIST in x[1].get("resolved_full", "") or "Vec::<std::vec::Vec<u8>>" in x[1].get("resolved_full", "")]
+    ins = b.calls(r"HashMap::<K, V, S, A>::insert$")
+    lks = b.calls(r"HashMap::<K, V, S, A>::(get_mut|contains_key|get)$")
+
+    def is_norm(o):
+        """operand is normalize_header_value(<value>.as_bytes()) itself (through moves)"""
+        od = b.origin_def(o)
+        if mutated_in_place(b, moved_chain(b, o)):
+            return False  # `let mut v = normalize_header_value(..); edit(&mut v); push(v)`
+        return bool(od and od[0] == "def" and od[1]["kind"] == "call" and re.search(r"canonical::normalize_header_value$", od[1]["term"]["callee"])
+                    and b.slice_op(od[1]["term"]["args"][0]).has_call(r"HeaderValue::as_bytes$")
+                    and not [c for c in b.slice_op(od[1]["term"]["args"][0]).callee_names() if not re.search(r"HeaderValue::as_bytes$|Iterator::next$|IntoIterator::into_iter$|HeaderMap::<T>::iter$|Deref::deref$|AsRef::as_ref$", c)])
+
+    if len(ents) == 1 and not ins:
+        # idiom 1: result.entry(key).or_default().push(value)
+        ent = ents[0]
+        ks = b.slice_op(ent[1]["args"][1])
+        if not (ks.has_call(LOWER) and ks.has_call(r"HeaderName::as_str$")):
+            yield VIOL("C11-R3", "normalize_headers/key", "map key is not the lower-cased header name", where=b.span_of_block(ent[0]))
+        else:
+            yield PASS("C11-R3", "normalize_headers/key", "key = name.as_str().to_lowercase()", [site(b, ent[0], "entry")])
+        p = one(ps, "value push in normalize_headers")
+        vs = b.slice_op(p[1]["args"][1])
+        rs = b.slice_op(p[1]["args"][0])
+        if not (vs.has_call(r"canonical::normalize_header_value$") and vs.has_call(r"HeaderValue::as_bytes$")):
+            yield VIOL("C11-R3", "normalize_headers/value", "stored value is not normalize_header_value(value.as_bytes())", where=b.span_of_block(p[0]))
+        elif not is_norm(p[1]["args"][1]):
+            yield VIOL("C11-R3", "normalize_headers/value", "the stored value is not the result of normalize_header_value(value.as_bytes()) as it is: it is modified, re-derived or built from something else as well before it is stored", where=b.span_of_block(p[0]))
+        elif not (rs.has_call(r"Entry::<'a, K, V(, A)?>::or_default$") and rs.has_call(r"HashMap::<K, V, S, A>::entry$")):
+            yield VIOL("C11-R3", "normalize_headers/store", "value is not appended through entry(key).or_default().push(value)", where=b.span_of_block(p[0]))
+        else:
+            yield PASS("C11-R3", "normalize_headers/value", "entry(key).or_default().push(normalize_header_value(value.as_bytes()))", [site(b, p[0], "push")])
+        stores = {p[0]}
+    elif not ents and len(ins) == 1 and len(lks) == 1 and len(ps) == 1:
+        # idiom 2 (the one query_string_to_normalized_map uses): if let Some(list) = result.get_mut(name) { list.push(v) }
+        # else { result.insert(name, vec![v]) }
+        lk, p, i_ = lks[0], ps[0], ins[0]
+        kl, ki = b.slice_op(lk[1]["args"][1]), b.slice_op(i_[1]["args"][1])
+        if not (kl.has_call(r"HeaderName::as_str$") and ki.has_call(r"HeaderName::as_str$") and ki.has_call(LOWER)):
+            yield VIOL("C11-R3", "normalize_headers/key", "map key is not the lower-cased header name (lookup by the HeaderName's own spelling, insert of its lower-cased copy)", where=b.span_of_block(i_[0]))
+        else:
+            yield PASS("C11-R3", "normalize_headers/key", "lookup by name.as_str() (HeaderName is lower-case by construction), insert under name.as_str().to_lowercase()", [site(b, i_[0], "insert")])
+        probs = []
+        if not is_norm(p[1]["args"][1]):
+            probs.append("the value appended to an existing list is not normalize_header_value(value.as_bytes())")
+        # the inserted list is vec![normalised value]: every byte-vector reaching it is the normaliser's result
+        isl = b.slice_op(i_[1]["args"][2])
+        elems = [t_ for _, t_ in isl.find_calls(r"canonical::normalize_header_value$")]
+        raw = [c for c in isl.callee_names() if re.search(r"to_vec$|to_owned$|Clone::clone$|extend_from_slice$|Vec::<T, A>::push$|From::from$|Into::into$", c)]
+        if len(elems) != 1 or raw or not isl.has_call(r"HeaderValue::as_bytes$"):
+            probs.append("the list inserted for a new name is not vec![normalize_header_value(value.as_bytes())]")
+        if probs:
+            yield VIOL("C11-R3", "normalize_headers/value", "; ".join(probs), where=b.span_of_block(p[0]))
+        else:
+            okp = lk[0] in {x[0] for x in b.slice_op(p[1]["args"][0]).find_calls(r"HashMap::<K, V, S, A>::get_mut$")} if hasattr(b.slice_op(p[1]["args"][0]), "find_calls") else False
+            okg = False
+            for pl, vals, other, ga in discr_guard_variants(b, i_[0]):
+                if b.slice([pl["local"]]).find_calls(r"HashMap::<K, V, S, A>::(get_mut|get|contains_key)$") and 1 not in vals:
+                    okg = True
+            for a_, sx, c, truth in guard_conditions(b, i_[0]):
+                if c["kind"] == "call" and re.search(r"contains_key$", c["callee"]) and truth is False:
+                    okg = True
+            if not okp or not okg:
+                yield VIOL("C11-R3", "normalize_headers/store", "the push does not go to the list found by the lookup, or the insert is not guarded by the lookup having failed (an earlier list would be replaced)", where=b.span_of_block(i_[0]))
+            else:
+                yield PASS("C11-R3", "normalize_headers/value", "get_mut(name) => push(normalised value), else insert(lower-cased name, vec![normalised value])", [site(b, p[0], "push"), site(b, i_[0], "insert")])
+        stores = {p[0], i_[0]}
     else:
-        yield PASS("C11-R3", "normalize_headers/key", "key = name.as_str().to_lowercase()", [site(b, ent[0], "entry")])
-    ps = [x for x in b.calls(r"Vec::<T, A>::push$")]
-    p = one(ps, "value push in normalize_headers")
-    vs = b.slice_op(p[1]["args"][1])
-    rs = b.slice_op(p[1]["args"][0])
-    if not (vs.has_call(r"canonical::normalize_header_value$") and vs.has_call(r"HeaderValue::as_bytes$")):
-        yield VIOL("C11-R3", "normalize_headers/value", "stored value is not normalize_header_value(value.as_bytes())", where=b.span_of_block(p[0]))
-    elif not (rs.has_call(r"Entry::<'a, K, V(, A)?>::or_default$") and rs.has_call(r"HashMap::<K, V, S, A>::entry$")):
-        yield VIOL("C11-R3", "normalize_headers/store", "value is not appended through entry(key).or_default().push(value)", where=b.span_of_block(p[0]))
-    else:
-        yield PASS("C11-R3", "normalize_headers/value", "entry(key).or_default().push(normalize_header_value(value.as_bytes()))", [site(b, p[0], "push")])
-    # every header is stored: push post-dominates the iteration's Some edge; iteration is over the whole HeaderMap
+        raise AnchorMissing("result.entry(key) (or the get_mut / insert idiom) in normalize_headers: %d entry, %d insert, %d lookup, %d push" % (len(ents), len(ins), len(lks), len(ps)))
+    # every header is stored: every way from the iteration's Some edge back to the loop head passes a store;
+    # iteration is over the whole HeaderMap
     its = b.calls(r"HeaderMap::<T>::iter$") + [x for x in b.calls(r"IntoIterator::into_iter$") if re.match(r"^<&http::HeaderMap(<[^>]*>)? as std::iter::IntoIterator>::into_iter$", x[1].get("resolved_full", ""))]
     it = one(its, "headers.iter()")  # `headers.iter()` or `for .. in headers` on the &HeaderMap: the same iteration
-    nx = [x for x in b.calls(r"Iterator::next$")]
+    nx = [x for x in b.calls(r"Iterator::next$") if "http::header::map::Iter<" in x[1].get("resolved_full", "")] or [x for x in b.calls(r"Iterator::next$")]
     st = b.term(nx[0][1]["target"]) if nx else None
     some = [bb for v, bb in st["targets"] if v == 1] if st and st["k"] == "switch" else []
-    if not some or not b.postdominates(p[0], some[0]) or param_by_name(b, "headers") not in b.slice_op(it[1]["args"][0]).locals:
-        yield VIOL("C11-R3", "normalize_headers/all-headers", "not every header of the request is stored", where=b.span_of_block(p[0]))
+    if not some or nx[0][0] in b._reachable_from(some[0], avoid=stores) or any(r_ in b._reachable_from(some[0], avoid=stores) for r_ in b.return_blocks()) or param_by_name(b, "headers") not in b.slice_op(it[1]["args"][0]).locals:
+        yield VIOL("C11-R3", "normalize_headers/all-headers", "not every header of the request is stored", where=b.span_of_block(sorted(stores)[0]))
     else:
         yield PASS("C11-R3", "normalize_headers/all-headers", "every (name, value) of the HeaderMap is stored, in iteration (arrival) order", [])
     # crate-wide: no reordering / removal on value lists (Vec<Vec<u8>>; Vec<String> reached through a map)
